@@ -80,6 +80,7 @@ type Frame struct {
 	allocIdx map[*ssa.Alloc]int
 	headerSt map[*ssa.BasicBlock]*State
 	caller  *Frame
+	curEnv  *SpecEnv
 }
 
 func (f *Frame) pos(p token.Pos) string {
@@ -121,6 +122,22 @@ func (f *Frame) oblige(kind, label, goal string, pos token.Pos, props []string, 
 	o := &Obligation{Name: name, Kind: kind, Props: ps, Func: tf.c.fnName, Pos: f.pos(pos),
 		NDefs: len(c.decls), Goal: implies(f.reach, goal), Text: text, ctx: c}
 	c.obls = append(c.obls, o)
+	// known finding with a witness region: also prove the obligation outside that region,
+	// so that a different failure of the same obligation is still reported
+	if kf := c.eng.known[name]; kf != nil && kf.Witness != "" {
+		env := f.curEnv
+		if env == nil {
+			env = f.specEnv(f.st, f.entrySt, true)
+		}
+		we, err := parseSpecExpr(kf.Witness)
+		if err != nil {
+			panic(contractErr("KNOWN_FINDINGS witness for " + name + ": " + err.Error()))
+		}
+		w := env.evalBool(we)
+		n := &Obligation{Name: name + "|outside-known-finding", Kind: "narrowed", Props: ps, Func: o.Func, Pos: o.Pos,
+			NDefs: len(c.decls), Goal: implies(f.reach, implies(not(w), goal)), Text: text + "  [outside the known-finding region: " + kf.Witness + "]", ctx: c}
+		c.obls = append(c.obls, n)
+	}
 }
 
 func (e *Engine) newFrame(c *Ctx, fn *ssa.Function, fc *FuncContract) *Frame {
